@@ -773,6 +773,20 @@ def record_matches(doc, fn, record):
 
 
 def select(fn, sel):
+    """`SELECTOR[/lhs|/rhs]*` : the suffixes descend into the operands of a binary operator
+    (for conditions such as `a >= b || p == nullptr` whose other half is about pointers)."""
+    sel, *path = sel.split("/")
+    node = select0(fn, sel)
+    for step in path:
+        while node.get("kind") in ("ParenExpr", "ExprWithCleanups") and node.get("inner"):
+            node = strip_comments(node)[-1]
+        if node.get("kind") != "BinaryOperator" or step not in ("lhs", "rhs"):
+            raise Broken(f"selector path /{step} on {node.get('kind')}")
+        node = strip_comments(node)[0 if step == "lhs" else 1]
+    return node
+
+
+def select0(fn, sel):
     body = [c for c in fn["inner"] if c.get("kind") == "CompoundStmt"][0]
     kind, _, arg = sel.partition(":")
     if kind == "function":
@@ -794,6 +808,13 @@ def select(fn, sel):
                    (lhs.get("kind") == "MemberExpr" and lhs.get("name") == name):
                     if i == nth:
                         return n["inner"][1] if n["opcode"] == "=" else n
+                    i += 1
+            elif n.get("kind") == "UnaryOperator" and n.get("opcode") in ("++", "--"):
+                # `x++;` / `--x;` count as assignments to x (value of x afterwards)
+                tgt = n["inner"][0]
+                if tgt.get("kind") == "DeclRefExpr" and tgt.get("referencedDecl", {}).get("name") == name:
+                    if i == nth:
+                        return n
                     i += 1
         raise Broken(f"assignment to {name} #{nth} not found")
     if kind in ("if", "while", "return"):
@@ -885,6 +906,12 @@ def translate_site(site, consts, sizes, key):
             elem = ctype(node)
             body = f"({tr.cast(tr.expr(idx), ctype(idx), ('int', 64, ctype(idx)[2]))} * {elem[1] // 8}#64)"
             rty = "BitVec 64"
+        elif node.get("kind") == "UnaryOperator" and node.get("opcode") in ("++", "--"):
+            tgt = node["inner"][0]; ct = ctype(tgt)
+            if ct[0] != "int":
+                raise Broken("++/-- on a non-integer")
+            body = f"({tr.expr(tgt)} {'+' if node['opcode'] == '++' else '-'} 1#{ct[1]})"
+            rty = lean_ty(ct)
         else:
             body = tr.expr(node)
             rty = lean_ty(ctype(node))
